@@ -55,6 +55,17 @@ def run_proofs(report, prop, modules, timeout_ms=None):
     for mod, fns in modules:
         recs = prove.verify_all(mod, fns, timeout_ms)
         base = baseline.get(mod, {})
+        # solver instability guard: an obligation of the baseline that is merely 'unknown' (not refuted) gets a
+        # second opinion with other seeds / a longer budget before it is reported (at most 3 per function)
+        for r in recs:
+            shaky = [o for o in r["obligations"] if o["result"] == "unknown" and ob_key(r["function"], o) in base]
+            if shaky and len(shaky) <= 3 and not rebase:
+                got = prove.retry_function(mod, r["function"], [o["name"] for o in shaky])
+                for o in shaky:
+                    if o["name"] in got:
+                        o["result"] = "proved"
+                        o["backend"] += " (retry with other seeds)"
+                        report.coverage["retried"] = report.coverage.get("retried", 0) + 1
         newbase = {}
         for r in recs:
             all_recs.append(r)
